@@ -9,7 +9,7 @@
    The compu-method half is in Properties/C07.v; general parameter trees are
    correspondence + oracle only. *)
 From Coq Require Import ZArith List Bool.
-From OV Require Import Base.Bytes Base.Wire Generated Model.Str Model.Codec Proofs.BytesProofs Proofs.AtomicProofs Proofs.CodecProps Proofs.FlatProofs Proofs.TreeProofs Proofs.TreeWireProofs Proofs.FieldProofs Proofs.DynFieldProofs Proofs.EopFieldProofs.
+From OV Require Import Base.Bytes Base.Wire Generated Model.Str Model.Codec Proofs.BytesProofs Proofs.AtomicProofs Proofs.CodecProps Proofs.FlatProofs Proofs.TreeProofs Proofs.TreeWireProofs Proofs.FieldProofs Proofs.DynFieldProofs Proofs.EopFieldProofs Proofs.KeyScopeProofs.
 Import ListNotations.
 Open Scope Z_scope.
 
@@ -114,3 +114,34 @@ Proof.
   destruct (eop_message_roundtrip k rs nm psi items Hg Hit ND Hf) as [E D]. split; assumption.
 Qed.
 Print Assumptions C03_end_of_pdu_field_reencode.
+
+(* ---------- the keys of an object are its own (Proofs/KeyScopeProofs.v) ---------- *)
+(* Before it encodes its parameters a structure forgets what was determined for LENGTH-KEYs named like its own (so that
+   every item of a field determines its own key; before the fix commit "items of a field shared the values of their
+   length- and table keys" a PDU whose items differ in length decoded, but its values could not be encoded again), and
+   it keeps every other key. *)
+Theorem C03_own_keys_forgotten : forall ps s nm,
+  In nm (own_keys ps) -> lookup nm (e_lkeys (drop_keys (own_keys ps) s)) = None.
+Proof. exact own_keys_forgotten. Qed.
+Print Assumptions C03_own_keys_forgotten.
+
+Theorem C03_other_keys_kept : forall ps s nm,
+  ~ In nm (own_keys ps) -> lookup nm (e_lkeys (drop_keys (own_keys ps) s)) = lookup nm (e_lkeys s).
+Proof. exact other_keys_kept. Qed.
+Print Assumptions C03_other_keys_kept.
+
+Theorem C03_own_keys_are_the_length_keys : forall ps nm,
+  In nm (own_keys ps) <-> exists p d, In p ps /\ pkind_of p = KLenKey d /\ pname p = nm.
+Proof. exact own_keys_spec. Qed.
+Print Assumptions C03_own_keys_are_the_length_keys.
+
+Example C03_keyed_items_example :
+  let item b := VDict [([98], VBytes b)] in
+  let full l b := VDict [([108], VInt l); ([98], VBytes b)] in
+  let pdu := [34; 16; 120; 121; 8; 122; 0; 24; 117; 118; 119] in
+  encode_msg ks_msg None (VDict [([102], VList [item [120; 121]; item [122]; item []; item [117; 118; 119]])]) = Ok (pdu, false) /\
+  decode_msg ks_msg pdu =
+    Ok (VDict [([115], VInt 34); ([102], VList [full 16 [120; 121]; full 8 [122]; full 0 []; full 24 [117; 118; 119]])]) /\
+  encode_msg ks_msg None (VDict [([102], VList [full 16 [120; 121]; full 8 [122]; full 0 []; full 24 [117; 118; 119]])]) = Ok (pdu, false).
+Proof. exact keyed_items_example. Qed.
+Print Assumptions C03_keyed_items_example.
